@@ -244,6 +244,9 @@ def to_tla_fn(d):
     return " @@ ".join("(%s :> %s)" % (tla_str(k), to_tla(v)) for k, v in d.items())
 
 
+import threading
+_wd_lock = threading.Lock()
+_wd_ctr = [0]
 TLC_STATS = re.compile(r"(\d+) states generated, (\d+) distinct states found, (\d+) states left on queue")
 
 
@@ -251,7 +254,10 @@ def tlc(ctx, module, cfg_text, mc_text=None, mc_name=None, workers=4, env=None, 
         dump=None, coverage=True, expect_ok=True, extra=None, deque=False, xss=True, label=None, heap="4g", count=True):
     """Run TLC on `module` (in /verif/spec) or on a generated MC module that EXTENDS it.
     Returns dict(ok, generated, distinct, output, violated, actions_fired, actions_never ...)."""
-    wd = ctx.path("tlc_%s_%d" % (label or mc_name or module, len(ctx.tlc_runs) + len(os.listdir(ctx.work))))
+    import threading
+    with _wd_lock:
+        _wd_ctr[0] += 1
+        wd = ctx.path("tlc_%s_%d" % (label or mc_name or module, _wd_ctr[0]))
     os.makedirs(wd, exist_ok=True)
     # copy the specification modules next to the generated one (TLC resolves EXTENDS in the cwd)
     for f in os.listdir(SPEC):
